@@ -77,7 +77,9 @@ class AbsPDF:
 
     @contextlib.contextmanager
     def temp_params(self, var):
-        params = self.get_params()
+        params = {
+            k: self.vm.get(k, val_in_fit=False) for k in self.vm.variables
+        }
         self.set_params(var)
         try:
             yield var
